@@ -123,13 +123,31 @@ def _f(v):
     return v if math.isfinite(v) else repr(v)
 
 
+SCRIBBLE = [False]   # a hostile consumer: overwrite, in place, every array a callable / extractor handed out
+
+
 def _arr(a):
-    return [_f(z) for z in np.asarray(a, dtype=float).ravel()]
+    out = [_f(z) for z in np.asarray(a, dtype=float).ravel()]
+    if SCRIBBLE[0] and isinstance(a, np.ndarray) and a.flags.writeable and a.size:
+        try:
+            a[...] = 777.0
+        except Exception:  # noqa: BLE001
+            pass
+    return out
 
 
-def observe(M) -> dict:
-    """every observable C14 talks about, as JSON-able data"""
-    from optyx.core.compiler import compile_expression
+def observe(M, scribble: bool = False) -> dict:
+    """every observable C14 talks about, as JSON-able data.  With `scribble` the caller behaves like a consumer that owns
+    what it was handed: every returned array is overwritten in place afterwards (harmless unless the library shares it)"""
+    SCRIBBLE[0] = bool(scribble)
+    try:
+        return _observe(M)
+    finally:
+        SCRIBBLE[0] = False
+
+
+def _observe(M) -> dict:
+    from optyx.core.compiler import compile_expression, compile_gradient, compile_to_dict_function
     from optyx.core.autodiff import compile_jacobian, compile_hessian, gradient
     from optyx.analysis import compute_degree, is_linear, LinearProgramExtractor
     from ser import ser, Unsupported
@@ -149,7 +167,15 @@ def observe(M) -> dict:
             out[tag + "jac"] = [jf.__name__] + _arr(jf(xs))
             jf1 = compile_jacobian([obj], vs)
             out[tag + "jac1"] = [jf1.__name__] + _arr(jf1(xs))
-            out[tag + "hess"] = _arr(compile_hessian(obj, vs)(xs))
+            hf = compile_hessian(obj, vs)
+            out[tag + "hess"] = [hf.__name__] + _arr(hf(xs))
+            out[tag + "hess_again"] = _arr(hf(xs + 0.125))
+            gf = compile_gradient(obj, vs)
+            out[tag + "grad"] = [gf.__name__] + _arr(gf(xs))
+            out[tag + "dict_fn"] = _f(np.asarray(compile_to_dict_function(obj, vs)(env)))
+            out[tag + "grad_sym_value"] = [_f(np.asarray(gradient(obj, v).evaluate(env))) for v in vs]
+            out[tag + "cons_hess"] = [_arr(compile_hessian(c.expr, vs)(xs)) for c in M["cons"]]
+            out[tag + "violation"] = [[_f(c.violation(env)), bool(c.is_satisfied(env))] for c in M["cons"]]
             # bare leaves: the only keys that are shared *by name* across models
             out[tag + "leaf_var"] = [_f(compile_expression(v, vs)(xs)) for v in vs]
             out[tag + "leaf_par"] = [_f(compile_expression(M["p"], vs)(xs)), _f(compile_expression(M["q"], vs)(xs))]
@@ -157,12 +183,14 @@ def observe(M) -> dict:
             out[tag + "leaf_jac"] = _arr(compile_jacobian([M["p"] * z], [z])(xs[:1])) + \
                 _arr(compile_jacobian([M["q"]], [z])(xs[:1])) + _arr(compile_jacobian([z], [z])(xs[:1]))
             out[tag + "solve"] = []
-            for m in ("auto", "SLSQP"):
+            methods = ("auto", "SLSQP") + (("trust-constr",) if M["fam"] in (1, 3) and not tag else ())
+            for m in methods:
                 try:
                     s = M["prob"].solve(method=m)
-                    vals = {k: round(float(v), 7) for k, v in sorted(s.values.items())} if s.values else {}
-                    ov = None if s.objective_value is None else round(float(s.objective_value), 7)
-                    out[tag + "solve"].append([m, s.status.name, vals, ov])
+                    nd = 7 if m != "trust-constr" else 4
+                    vals = {k: round(float(v), nd) for k, v in sorted(s.values.items())} if s.values else {}
+                    ov = None if s.objective_value is None else round(float(s.objective_value), nd)
+                    out[tag + "solve"].append([m, s.status.name, vals, ov] + ([s.iterations] if m == "trust-constr" else []))
                 except Exception as ex:  # noqa: BLE001
                     out[tag + "solve"].append([m, "raise:" + type(ex).__name__])
 
@@ -186,6 +214,184 @@ def observe(M) -> dict:
     M["p"].set(M["p_new"])
     block("after_set_")
     return out
+
+
+# ----------------------------------------------------------------------------- artefact probes: prefix × target pairs
+
+PROBE_KINDS = ["lin", "vsum", "pow1", "pow2", "pow3", "usum", "sep", "cross", "cubic", "dotself", "quadform", "l2", "mixed"]
+PROBE_DIMS = [1, 2, 3, 5]
+
+
+def probe_build(kind: str, n: int, nm: str = "s"):
+    """a small model over n variables whose artefacts (value, gradient, Jacobian, Hessian) have a characteristic structure:
+    all-zero / constant / structurally sparse / dense Hessians, constant / scaled / general Jacobians, every vectorised
+    fast path.  `nm` is the base name (prefix and target may or may not share names)."""
+    from optyx import Variable, VectorVariable, Problem, exp
+    from optyx.core import vectors as V
+    from optyx.core import matrices as Mx
+
+    if kind in ("vsum", "pow1", "pow2", "pow3", "usum", "dotself", "quadform", "l2"):
+        x = VectorVariable(nm, n, lb=-4.0, ub=4.0)
+        vs = list(x)
+        obj = {
+            "vsum": lambda: x.sum(), "pow1": lambda: V.VectorPowerSum(x, 1), "pow2": lambda: V.VectorPowerSum(x, 2),
+            "pow3": lambda: V.VectorPowerSum(x, 3), "usum": lambda: V.VectorUnarySum(x, "exp"),
+            "dotself": lambda: x.dot(x),
+            "quadform": lambda: Mx.QuadraticForm(x, np.array([[2.0 + i if i == j else 0.25 * ((i + j) % 3) for j in range(n)]
+                                                             for i in range(n)])),
+            "l2": lambda: V.L2Norm(x),
+        }[kind]()
+    else:
+        vs = [Variable(f"{nm}{i}", lb=-4.0, ub=4.0) for i in range(n)]
+        if kind == "lin":
+            obj = sum(((i + 1.5) * v for i, v in enumerate(vs)), start=0.0 * vs[0]) + 2.0
+        elif kind == "sep":
+            obj = sum(((v - float(i)) ** 2 for i, v in enumerate(vs)), start=exp(vs[0] * 0.5))
+        elif kind == "cross":
+            obj = sum((v * v for v in vs), start=0.0 * vs[0])
+            for i in range(n):
+                for j in range(i + 1, n):
+                    obj = obj + (0.5 + i + 2 * j) * vs[i] * vs[j] * 0.125
+        elif kind == "cubic":
+            obj = sum((v ** 3 for v in vs), start=vs[0] * vs[-1] * 3.0)
+        else:  # mixed: constants, structural zeros and x-dependent entries in one Hessian
+            obj = 3.0 * vs[0] ** 2 + exp(vs[-1] * 0.25) + (vs[0] * vs[-1] if n > 1 else vs[0])
+    prob = Problem()
+    prob.minimize(obj)
+    return {"vars": vs, "obj": obj, "prob": prob, "kind": kind, "n": n}
+
+
+def probe_observe(M, full: bool = False) -> dict:
+    """all first- and second-order artefacts of a probe, each callable called at two points"""
+    from optyx.core.compiler import compile_expression, compile_gradient, compile_to_dict_function
+    from optyx.core.autodiff import compile_jacobian, compile_hessian, gradient
+    from optyx.analysis import compute_degree
+
+    obj, vs = M["obj"], M["vars"]
+    n = len(vs)
+    pts = [np.array([0.75 + 0.5 * i for i in range(n)]), np.array([-1.25 + 0.375 * i for i in range(n)])]
+    out = {"degree": compute_degree(obj)}
+    with warnings.catch_warnings(), np.errstate(all="ignore"):
+        warnings.simplefilter("ignore")
+        fn, jf, gf, hf = (compile_expression(obj, vs), compile_jacobian([obj], vs), compile_gradient(obj, vs),
+                          compile_hessian(obj, vs))
+        df = compile_to_dict_function(obj, vs)
+        out["paths"] = [jf.__name__, gf.__name__, hf.__name__]
+        for k, x in enumerate(pts):
+            env = {v.name: float(t) for v, t in zip(vs, x)}
+            out[f"eval{k}"] = _f(np.asarray(obj.evaluate(env)))
+            out[f"fn{k}"] = _f(np.asarray(fn(x)))
+            out[f"dict{k}"] = _f(np.asarray(df(env)))
+            out[f"jac{k}"] = _arr(jf(x))
+            out[f"grad{k}"] = _arr(gf(x))
+            out[f"hess{k}"] = _arr(hf(x))
+            out[f"symgrad{k}"] = [_f(np.asarray(gradient(obj, v).evaluate(env))) for v in vs]
+        if full:
+            out["solve"] = []
+            for m in ("trust-constr", "L-BFGS-B"):
+                try:
+                    s = M["prob"].solve(method=m)
+                    out["solve"].append([m, s.status.name, {k: round(float(v), 4) for k, v in sorted((s.values or {}).items())},
+                                         None if s.objective_value is None else round(float(s.objective_value), 4), s.iterations])
+                except Exception as ex:  # noqa: BLE001
+                    out["solve"].append([m, "raise:" + type(ex).__name__])
+    return out
+
+
+PROBE_SOLVED = {"pow2", "sep", "dotself", "quadform", "cross"}
+
+
+def probe_full(kind, n):
+    return kind in PROBE_SOLVED and n in (2, 3)
+
+
+def probe_pairs(rep, rng, ref, thorough):
+    """every target probe after prefixes of other probes: same and different dimension, same and different names; the
+    prefix is consumed by a hostile consumer (returned arrays overwritten in place); nothing is cleared in between"""
+    targets = [(k, n) for n in PROBE_DIMS for k in PROBE_KINDS]
+    for (tk, tn) in targets:
+        want = ref[json.dumps(["probe", tk, tn])]
+        same_n = [(k, tn) for k in PROBE_KINDS if k != tk]
+        other_n = [(k, n) for n in PROBE_DIMS if n != tn for k in ("cross", "mixed", "pow2", "lin")]
+        prefixes = same_n + other_n if thorough else rng.sample(same_n, 5) + rng.sample(other_n, 2)
+        for i, (pk, pn) in enumerate(prefixes):
+            N = probe_build(pk, pn, "s" if i % 2 == 0 else "t")
+            SCRIBBLE[0] = True
+            try:
+                probe_observe(N, full=probe_full(pk, pn) and i % 3 == 0)
+            finally:
+                SCRIBBLE[0] = False
+            got = probe_observe(probe_build(tk, tn, "s"), full=probe_full(tk, tn))
+            rep.evaluations += 1
+            rep.nontrivial.add(("pair", pk, pn, tk, tn))
+            key = f"pair:n{pn}->n{tn}"
+            rep.histogram[key] = rep.histogram.get(key, 0) + 1
+            d = same(got, want)
+            if d:
+                k0 = d.split("/")[1].split("[")[0]
+                rep.oracle_failures.append({
+                    "what": "artefact of a model differs from a fresh process after an unrelated model was compiled / consumed",
+                    "pair": [[pk, pn], [tk, tn]], "where": d, "got": str(got.get(k0))[:300], "fresh": str(want.get(k0))[:300]})
+                break
+
+
+# ----------------------------------------------------------------------------- faulting prefixes and interpreter state
+
+
+def interpreter_state():
+    import sys as _sys
+
+    return {"recursionlimit": _sys.getrecursionlimit(), "showwarning": warnings.showwarning,
+            "filters": len(warnings.filters), "errstate": dict(np.geterr())}
+
+
+def faulting_prefix():
+    """calls of other models that end in an exception (every class the library raises on purpose, plus a back end that
+    is interrupted): none of them may leave process-wide state behind"""
+    from optyx import Variable, Problem, sin
+    import optyx.solvers.scipy_solver as SS
+    from optyx.core.autodiff import increased_recursion_limit
+
+    z = Variable("s0", lb=0.0, ub=3.0)
+    k = Variable("s1", domain="integer", lb=0, ub=5)
+    outcomes = []
+
+    def attempt(f):
+        try:
+            with warnings.catch_warnings():
+                warnings.simplefilter("ignore")
+                f()
+            outcomes.append("ok")
+        except BaseException as ex:  # noqa: BLE001
+            outcomes.append(type(ex).__name__)
+
+    attempt(lambda: Problem().solve())
+    attempt(lambda: Problem().minimize(sin(z) + z * z).solve(method="linprog"))
+    attempt(lambda: Problem().minimize(z + k).solve(strict=True))
+    attempt(lambda: Problem().minimize(z * z + k).solve(method="SLSQP", strict=True))
+    attempt(lambda: Problem().minimize(z).subject_to([z >= 1, z + 1]))
+    attempt(lambda: Problem().minimize("not an expression"))
+
+    def interrupted(exc):
+        old = SS.minimize
+
+        def boom(*a, **kw):
+            kw.get("jac", lambda x: 0)(np.asarray(kw.get("x0", a[1] if len(a) > 1 else [0.0]), dtype=float))
+            raise exc
+        SS.minimize = boom
+        try:
+            Problem().minimize((z - 1.0) ** 2 + (k - 2.0) ** 2).solve(method="trust-constr")
+        finally:
+            SS.minimize = old
+
+    attempt(lambda: interrupted(KeyboardInterrupt()))
+    attempt(lambda: interrupted(RuntimeError("back end failed")))
+
+    def recursion_ctx():
+        with increased_recursion_limit(3000):
+            raise ValueError("inside")
+    attempt(recursion_ctx)
+    return outcomes
 
 
 # ----------------------------------------------------------------------------- object lifetime: discard-and-rebuild
@@ -346,6 +552,40 @@ def lifetime_soak(rep, rng, ref, depths, rounds, full_every, targets=None):
             gc.collect()
 
 
+def soak_in_subprocesses(rep, jobs):
+    """each job = (depths, rounds, targets, reference) runs `lifetime_soak` in a fresh interpreter; results are merged"""
+    env = dict(os.environ)
+    env["PYTHONDONTWRITEBYTECODE"] = "1"
+
+    def one(job):
+        depths, rounds, targets, ref = job
+        payload = {"depths": depths, "rounds": rounds, "targets": targets,
+                   "ref": {k: v for k, v in ref.items() if isinstance(k, str) and json.loads(k)[2] in depths}}
+        p = subprocess.run([sys.executable, os.path.abspath(__file__), "--soak"], input=json.dumps(payload),
+                           capture_output=True, text=True, env=env, timeout=3000)
+        if p.returncode != 0:
+            raise RuntimeError("soak subprocess failed: " + p.stderr[-1500:])
+        return json.loads(p.stdout.splitlines()[-1])
+
+    with ThreadPoolExecutor(6) as ex:
+        for res in ex.map(one, jobs):
+            rep.oracle_failures.extend(res["failures"])
+            rep.evaluations += res["evaluations"]
+            for k, v in res["histogram"].items():
+                rep.histogram[k] = rep.histogram.get(k, 0) + v
+            for t in res["nontrivial"]:
+                rep.nontrivial.add(tuple(t))
+
+
+def _soak_main():
+    core.use_repo()
+    job = json.loads(sys.stdin.read())
+    rep = core.Report()
+    lifetime_soak(rep, None, job["ref"], job["depths"], job["rounds"], 10, targets=job["targets"])
+    print(json.dumps({"failures": rep.oracle_failures, "evaluations": rep.evaluations, "histogram": rep.histogram,
+                      "nontrivial": [list(t) for t in rep.nontrivial]}))
+
+
 def churn(n: int, seed: int):
     """push `n` distinct expressions over the shared names through all three caches"""
     from optyx import Variable, Parameter
@@ -422,7 +662,9 @@ def _ref_main():
     out = {}
     for s in seeds:
         clear_lru()
-        if isinstance(s, list):      # ["life", kind, depth]
+        if isinstance(s, list) and s[0] == "probe":
+            out[json.dumps(s)] = probe_observe(probe_build(s[1], s[2], "s"), full=probe_full(s[1], s[2]))
+        elif isinstance(s, list):      # ["life", kind, depth]
             out[json.dumps(s)] = life_observe(life_build(s[1], s[2], 0), full=True)
         else:
             out[s] = observe(build_model(s))
@@ -571,7 +813,7 @@ def run(ctx) -> core.Report:
             for i, s in enumerate(seeds):
                 for j in range(k):
                     other = base + 500 + (i * 7 + j * 3 + k) % 97
-                    observe(build_model(other))
+                    observe(build_model(other), scribble=(j % 2 == 0))
                 check(s, k, str(k))
         # k = capacity + 50 for every cache
         cap = max(v.maxsize for v in cache_sizes().values())
@@ -585,15 +827,46 @@ def run(ctx) -> core.Report:
             check(s, cap + 50, "cap+50")
             churn(64, s)
         del keep
+        # artefact probes: prefix × target pairs over all artefact kinds, same / different dimension and names
+        items = [["probe", k, n] for n in PROBE_DIMS for k in PROBE_KINDS]
+        probe_ref = reference(items)
+        clear_lru()
+        probe_pairs(rep, rng, probe_ref, thorough)
+        # prefixes that end in exceptions: interpreter-wide state untouched, later observations unaffected
+        before = interpreter_state()
+        outcomes = faulting_prefix()
+        after = interpreter_state()
+        rep.histogram["faulting_prefix_outcomes"] = outcomes
+        rep.evaluations += len(outcomes)
+        if before != after:
+            rep.oracle_failures.append({"what": "process-wide interpreter state changed by calls that ended in an exception",
+                                        "before": str(before)[:300], "after": str(after)[:300], "faults": outcomes})
+        for s in seeds[:6]:
+            check(s, 1, "after-faults")
+        for (tk, tn) in (("cross", 2), ("sep", 3), ("pow2", 2)):
+            got = probe_observe(probe_build(tk, tn, "s"), full=True)
+            d = same(got, probe_ref[json.dumps(["probe", tk, tn])])
+            rep.evaluations += 1
+            if d:
+                rep.oracle_failures.append({"what": "artefact differs from a fresh process after faulting calls of other models",
+                                            "pair": [["faults", 0], [tk, tn]], "where": d})
         # object lifetime: shallow and deep (beyond the recursion threshold) chains, each target in a process of its own
         thr = deep_threshold()
         depths = [6, thr + 20]
         items = [["life", k, d] for d in depths for k in LIFE_KINDS]
         life_ref = reference(items, own_process_each=True)
         clear_lru()
-        lifetime_soak(rep, rng, life_ref, [6], 600 if thorough else 120, 10)
         deep_targets = LIFE_KINDS if thorough else [LIFE_KINDS[(ctx["seed"] + i) % 5] for i in (0, 1, 3)]
-        lifetime_soak(rep, rng, life_ref, [thr + 20], 450 if thorough else 90, 10, targets=deep_targets)
+        jobs = [([6], 600 if thorough else 120, LIFE_KINDS, life_ref)]
+        # one process per deep target: whether a rebuilt tree lands on a recycled address depends on the state of the heap,
+        # so each soak runs in an interpreter that does nothing else (and they run side by side)
+        jobs += [([thr + 20], 450 if thorough else 90, [t], life_ref) for t in deep_targets]
+        if thorough:
+            # just below / at / just above the recursion threshold
+            edge = [thr - 1, thr, thr + 1]
+            edge_ref = reference([["life", k, d] for d in edge for k in LIFE_KINDS], own_process_each=True)
+            jobs += [([d], 90, ["lin", "quad", "quart"], edge_ref) for d in edge]
+        soak_in_subprocesses(rep, jobs)
     finally:
         clear_lru()
     return rep
@@ -651,3 +924,5 @@ def replay(payload) -> bool:
 
 if __name__ == "__main__" and "--ref" in sys.argv:
     _ref_main()
+if __name__ == "__main__" and "--soak" in sys.argv:
+    _soak_main()
